@@ -153,6 +153,7 @@ type Gen struct {
 	drainStep   int
 	chased      bool
 	runout      bool
+	nextOp      *Op
 	chaseRoll   bool
 	everSid     map[int]string // actor -> sid DID it has been listed in at some point
 	chase12     int // remaining jumps to the next examination of a stalled long-timeout order
@@ -554,8 +555,57 @@ func (g *Gen) metas() []metaRef {
 	return out
 }
 
+// collidingReports: two reports by one fishman against two shards of one provider whose
+// commit-id and shard-id strings concatenate to the same text ("x"+"12" and "x1"+"2").
+func (g *Gen) collidingReports(rep *Actor) (*Op, *Op) {
+	e, s := g.e, g.e.Cur
+	type held struct {
+		sid uint64
+		d   int
+	}
+	by := map[string][]held{}
+	for i, d := range e.Data {
+		m, ok := s.Model.Metas[d.DataId]
+		if !ok {
+			continue
+		}
+		o, ok := s.Order.Orders[m.OrderId]
+		if !ok {
+			continue
+		}
+		for _, sid := range o.Shards {
+			if sh, ok := s.Order.Shards[sid]; ok && sh.Status == ordertypes.ShardCompleted {
+				by[sh.Sp] = append(by[sh.Sp], held{sid, i})
+			}
+		}
+	}
+	for _, sp := range sortedKeys(by) {
+		a := e.W.ByAddr[sp]
+		if a == nil {
+			continue
+		}
+		hs := by[sp]
+		for _, x := range hs {
+			for _, y := range hs {
+				sx, sy := fmt.Sprint(x.sid), fmt.Sprint(y.sid)
+				if x.d != y.d && len(sx) > len(sy) && strings.HasSuffix(sx, sy) {
+					pre := sx[:len(sx)-len(sy)]
+					return &Op{K: "report", A: rep.Idx, Acc: a.Idx + 1, D: x.d, Cm: "fault-", Note: "colliding-id-1"},
+						&Op{K: "report", A: rep.Idx, Acc: a.Idx + 1, D: y.d, Cm: "fault-" + pre, Note: "colliding-id-2"}
+				}
+			}
+		}
+	}
+	return nil, nil
+}
+
 func (g *Gen) genOp() *Op {
 	r := g.r
+	if g.nextOp != nil {
+		op := g.nextOp
+		g.nextOp = nil
+		return op
+	}
 	kinds := make([]string, 0, len(g.p.W))
 	for k := range g.p.W {
 		kinds = append(kinds, k)
@@ -1011,6 +1061,13 @@ func (g *Gen) genKind(k string) *Op {
 		}
 		if rep == nil {
 			rep = g.pickActor(w.SPs)
+		}
+		if k == "report" && rep != nil && rep.Role == RoleFishman && r.Chance(0.3) {
+			if a, b := g.collidingReports(rep); a != nil {
+				g.nextOp = b
+				e.probe("reports_with_colliding_id_text")
+				return a
+			}
 		}
 		// accused: holder of a completed shard
 		for _, i := range r.Perm(len(e.Data)) {
